@@ -126,6 +126,9 @@ class async_sender {
 
     serial_num_t _last_serial_num { 0 };
 
+    // value of the stream's replace_count() at the time of the last resend
+    unsigned _resent_at { 0 };
+
 public:
     explicit async_sender(ClientService& svc) : _svc(svc) {}
 
@@ -182,6 +185,13 @@ public:
     void resend() {
         if (_write_in_progress)
             return;
+
+        // The read and the write path may both report the same reconnect.
+        // Everything unanswered has then already been re-sent on this
+        // connection and must not be re-sent a second time.
+        if (_resent_at == _svc._stream.replace_count())
+            return do_write();
+        _resent_at = _svc._stream.replace_count();
 
         // The _write_in_progress flag is set to true to prevent any write
         // operations executing before the _write_queue is filled with
